@@ -11,10 +11,11 @@ Theorem C14_single_chain : forall ops a,
   wf a -> Forall wf_op ops -> Z.of_nat (length (rchain a) + length ops) < two63 -> wf (run a ops).
 Proof. exact run_wf. Qed.
 
-(* no operation reaches higherPriority(block, nil) or fails to pop: the decision procedure is total *)
+(* no operation reaches higherPriority(block, nil) or fails to pop: the decision procedure is total; the only failure is
+   the rebuild after a momentum that confirmed a PART of a contract's batch (the account's pool is then dropped) *)
 Theorem C14_step_total : forall a o, wf a -> wf_op o -> Z.of_nat (length (rchain a)) < two63 ->
   wf (fst (step a o)) /\ (length (rchain (fst (step a o))) <= S (length (rchain a)))%nat /\
-  snd (step a o) <> RPanic /\ snd (step a o) <> RErrPop.
+  snd (step a o) <> RPanic /\ (snd (step a o) = RErrPop -> exists k, o = OMomentum k /\ ~ aligned a k).
 Proof. exact step_wf. Qed.
 
 (* a confirmed block is never displaced by a pool operation; only a momentum extends and only a momentum delete shortens it *)
@@ -47,22 +48,58 @@ Theorem C14_priority_no_overflow : forall a b,
   (wins a b <-> btotal b * bbase a < btotal a * bbase b \/ (btotal a * bbase b = btotal b * bbase a /\ bhash a < bhash b)).
 Proof. exact priority_no_overflow. Qed.
 
-(* after a momentum that confirms the next k pooled blocks the rebuild succeeds and the pool holds exactly the
-   previously pooled blocks that were not confirmed by it *)
-Theorem C14_rebuild_exact : forall a k, wf a -> (sh a + k <= length (rchain a))%nat ->
+(* after a momentum that confirms the next k pooled blocks (whole batches of a pooled chain of whole batches) the
+   rebuild succeeds and the pool holds exactly the previously pooled blocks that were not confirmed by it; the rebuild
+   re-adds a contract's batch as ONE transaction (its ContractSend descendants with their ContractReceive) *)
+Theorem C14_rebuild_exact : forall a k, wf a -> (sh a + k <= length (rchain a))%nat -> aligned a k ->
   step a (OMomentum k) = (mkAcct (rchain a) (sh a + k), ROk) /\
   pooled (mkAcct (rchain a) (sh a + k)) = firstn (length (pooled a) - k) (pooled a) /\
   confirmed (mkAcct (rchain a) (sh a + k)) = skipn (length (pooled a) - k) (pooled a) ++ confirmed a.
 Proof. exact rebuild_exact. Qed.
 
+(* non-vacuity, and the record of the defect fixed in /repo 84ffe66: a contract with one confirmed block and one pooled
+   batch (send 22, receive 33) sees a momentum that confirms nothing of it. The rebuild keeps the batch; the rebuild that
+   re-added every block as a transaction of its own (the code before the fix) fails on the receive, whose transaction
+   starts at the send below it, and the batch is lost *)
+Example C14_rebuild_keeps_unconfirmed_batch :
+  let g1 := mkBlock 11 0 1 0 0 false in
+  let s2 := mkBlock 22 11 2 0 0 true in
+  let r3 := mkBlock 33 22 3 0 0 false in
+  let a := mkAcct [r3; s2; g1] 1 in
+  wf a /\ aligned a 0 /\ step a (OMomentum 0) = (a, ROk).
+Proof. cbv zeta. split; [|split]; [unfold wf; cbn; repeat split; lia|split; reflexivity|vm_compute; reflexivity]. Qed.
+Theorem C14_rebuild_per_block_refuted : exists a, wf a /\ aligned a 0 /\
+  rebuild (confirmed a) a = Some a /\ rebuild_per_block (confirmed a) a = None.
+Proof.
+  exists (mkAcct [mkBlock 33 22 3 0 0 false; mkBlock 22 11 2 0 0 true; mkBlock 11 0 1 0 0 false] 1).
+  split; [|split]; [unfold wf; cbn; repeat split; lia|split; reflexivity|split; vm_compute; reflexivity].
+Qed.
+
+(* the winner of a competition for an unconfirmed height - any height 1..k of the pooled chain -, a forced block and a
+   fast-forward insert all sit on the untouched chain below their height: exactly the blocks from that height up are
+   dropped, all of them unconfirmed (the pool can go back to every earlier unconfirmed version) *)
+Theorem C14_replacement_is_exactly_the_suffix : forall force a b a', wf a -> in_u64 (bheight b) -> Z.of_nat (length (rchain a)) < two63 ->
+  add force a b = (a', ROk) ->
+  exists dropped below, rchain a = dropped ++ below /\ rchain a' = b :: below /\ frontier_id below = prev_of b /\
+    (length dropped <= length (rchain a) - sh a)%nat /\ Forall (fun x => bheight b <= bheight x) dropped.
+Proof. exact add_replaces_suffix. Qed.
+Example C14_replace_above_first_unconfirmed :
+  let g1 := mkBlock 11 0 1 0 0 false in
+  let b2 := mkBlock 22 11 2 21000 21000 false in
+  let b3 := mkBlock 33 22 3 21000 21000 false in
+  let b4 := mkBlock 44 33 4 21000 21000 false in
+  let c3 := mkBlock 99 22 3 42000 21000 false in
+  add false (mkAcct [b4; b3; b2; g1] 1) c3 = (mkAcct [c3; b2; g1] 1, ROk).
+Proof. vm_compute. reflexivity. Qed.
+
 (* competing producers: the chain also sends an insert notification for a momentum the store did not apply (own momentum
    inserted after a competing one for the same height). Measured against the store nothing got confirmed: the rebuild
    cannot fail and leaves account, confirmed blocks and pool exactly as they were; any number of such notifications
    anywhere in a history leaves no trace *)
-Theorem C14_unapplied_momentum_leaves_pool : forall a, wf a -> step a (OMomentum 0) = (a, ROk).
+Theorem C14_unapplied_momentum_leaves_pool : forall a, wf a -> aligned a 0 -> step a (OMomentum 0) = (a, ROk).
 Proof. exact unapplied_momentum_identity. Qed.
 
-Theorem C14_unapplied_momentums_no_trace : forall a n ops, wf a ->
+Theorem C14_unapplied_momentums_no_trace : forall a n ops, wf a -> aligned a 0 ->
   run a (repeat (OMomentum 0) n ++ ops) = run a ops.
 Proof. exact unapplied_momentums_no_trace. Qed.
 
@@ -75,6 +112,20 @@ Theorem C14_filter_batches : forall blocks,
         MaxAccountBlocksInMomentum < Z.of_nat (length r) + Z.of_nat (length pre) + 1)) /\
   Z.of_nat (length r) <= MaxAccountBlocksInMomentum /\ ends_batch r.
 Proof. exact filter_batches. Qed.
+
+(* ... and for the content as accountPool.GetNewMomentumContent composes it - ONE walk of filterBlocksToCommit over the
+   concatenation of the accounts' pooled chains, whatever order the map yields the accounts in: the complete chains of
+   some accounts and a prefix of one more account's chain that ends where a batch ends; no batch of any account is split *)
+Theorem C14_content_never_splits_a_batch_of_any_account : forall chains,
+  exists j p rest, new_momentum_content chains = concat (firstn j chains) ++ p /\ nth j chains [] = p ++ rest /\ ends_batch p /\
+    Z.of_nat (length (new_momentum_content chains)) <= MaxAccountBlocksInMomentum.
+Proof. exact content_per_account. Qed.
+(* two contracts with 61 pooled blocks each, batches of (send, receive): 100 blocks = 50 whole batches are offered, the cut
+   falls between batch 19 and batch 20 of the second contract *)
+Example C14_content_two_queues :
+  let q := concat (repeat [mkBlock 0 0 0 0 0 true; mkBlock 0 0 0 0 0 false] 30) ++ [mkBlock 0 0 0 0 0 false] in
+  length (new_momentum_content [q; q]) = 99%nat.
+Proof. vm_compute. reflexivity. Qed.
 
 (* non-vacuity: a better-paying competitor replaces the pooled block and what was built on it *)
 Example C14_replace_example :
